@@ -40,7 +40,7 @@ Max(a, b) == IF a > b THEN a ELSE b
 NoWill == [t |-> <<>>, p |-> "", q |-> 0, r |-> FALSE]
 Fresh(c, n, s) == [n |-> n, s |-> s, phase |-> "open", client |-> "", user |-> "", pass |-> "", mount |-> "", ka |-> 0, will |-> "",
                    disc |-> FALSE, cause |-> "none", closed |-> FALSE, lastpkt |-> vnow, auth |-> "unknown", reg |-> FALSE,
-                   displaced |-> FALSE, connack |-> -1]
+                   displaced |-> FALSE, connack |-> -1, hostile |-> FALSE]
 SC(s) == CHOOSE c \in Dom(conn) : conn[c].s = s
 KnownS(s) == \E c \in Dom(conn) : conn[c].s = s
 Live(c) == c \in Dom(conn) /\ conn[c].phase = "live"
@@ -91,10 +91,10 @@ SendConnect ==
 AuthDone ==
   /\ Ev.op = "auth"
   /\ LET c == CHOOSE x \in Dom(conn) : conn[x].s = Ev.s IN
-     /\ conn[c].phase = "setup"
-     /\ (table # {} => /\ Ev.ok = A!Admit(table, conn[c].user, conn[c].pass)
+     /\ (conn[c].phase = "setup" \/ (conn[c].hostile /\ conn[c].phase = "open"))   \* raw bytes may happen to be a CONNECT
+     /\ (table # {} /\ ~conn[c].hostile => /\ Ev.ok = A!Admit(table, conn[c].user, conn[c].pass)
                        /\ (Ev.ok => Ev.mount = A!MountOf(table, conn[c].user, conn[c].pass)))
-     /\ conn' = Upd(conn, c, [conn[c] EXCEPT !.auth = IF Ev.ok THEN "ok" ELSE "refused", !.mount = Ev.mount])
+     /\ conn' = Upd(conn, c, [conn[c] EXCEPT !.auth = IF Ev.ok THEN "ok" ELSE "refused", !.mount = Ev.mount, !.phase = "setup"])
      /\ msgs' = IF conn[c].will # "" THEN Upd(msgs, conn[c].will, [msgs[conn[c].will] EXCEPT !.mount = Ev.mount]) ELSE msgs
   /\ UNCHANGED <<vnow, subs, logs, acked, inq2, outf, deliv, need, owed, ret, tags, sweeps, dead, table, clears, faults, reach>>
 
@@ -104,10 +104,10 @@ Register ==
   /\ Ev.op = "reg.create" /\ KnownS(Ev.s)
   /\ LET c == SC(Ev.s) IN
      /\ conn[c].phase = "setup" /\ conn[c].auth = "ok" /\ conn[c].n = Ev.n /\ ~conn[c].reg
-     /\ Ev.mount = conn[c].mount /\ Ev.client = conn[c].client
+     /\ Ev.mount = conn[c].mount /\ (conn[c].hostile \/ Ev.client = conn[c].client)
      /\ conn' = [x \in Dom(conn) |->
-                   IF x = c THEN [conn[c] EXCEPT !.reg = TRUE]
-                   ELSE IF conn[x].client = conn[c].client /\ conn[x].mount = conn[c].mount /\ conn[x].phase = "live"
+                   IF x = c THEN [conn[c] EXCEPT !.reg = TRUE, !.client = Ev.client]
+                   ELSE IF conn[x].client = Ev.client /\ conn[x].mount = conn[c].mount /\ conn[x].phase = "live"
                         THEN [conn[x] EXCEPT !.displaced = TRUE] ELSE conn[x]]
   /\ UNCHANGED <<vnow, subs, msgs, logs, acked, inq2, outf, deliv, need, owed, ret, tags, sweeps, dead, table, clears, faults, reach>>
 
@@ -206,9 +206,9 @@ SendOther ==
   /\ Ev.c \in Dom(conn) /\ ~(Ev.kind = "CONNECT" /\ conn[Ev.c].phase = "open")
   /\ LET k == Touch(Ev.c, conn[Ev.c]) IN
      conn' = Upd(conn, Ev.c,
-        CASE "dropped" \in DOMAIN Ev -> conn[Ev.c]
+        CASE "dropped" \in DOMAIN Ev -> (IF Ev.kind = "RAW" THEN [conn[Ev.c] EXCEPT !.hostile = TRUE] ELSE conn[Ev.c])
           [] Ev.kind = "DISCONNECT" -> [WithCause(k, "disconnect") EXCEPT !.disc = (conn[Ev.c].phase = "live")]
-          [] Ev.kind = "RAW" -> WithCause(k, "protocol")
+          [] Ev.kind = "RAW" -> [WithCause(k, "protocol") EXCEPT !.hostile = TRUE]
           [] Ev.kind = "CONNECT" -> WithCause(k, "protocol")
           [] Ev.kind = "PINGREQ" /\ conn[Ev.c].displaced -> [WithCause(k, "displaced") EXCEPT !.disc = TRUE]
           [] OTHER -> k)
@@ -278,9 +278,9 @@ Callback ==
      /\ sweeps' = [s \in Dom(sweeps) |-> sweeps[s] \ {Ev.tag}]
      /\ IF tg.kind = "pubrec"
         THEN \* inbound QoS 2 handshake: PUBREL arrived (release for forwarding, exactly once) or it timed out (dropped)
-             /\ key \in Dom(inq2)
+             /\ (key \in Dom(inq2) \/ conn[c].hostile)
              /\ inq2' = Del(inq2, {key})
-             /\ IF Ev.expired THEN UNCHANGED <<msgs, need, reach>>
+             /\ IF Ev.expired \/ key \notin Dom(inq2) THEN UNCHANGED <<msgs, need, reach>>
                 ELSE Release(inq2[key], msgs[inq2[key]])
              /\ UNCHANGED outf
         ELSE /\ key \in Dom(outf) /\ outf[key].tag = Ev.tag
@@ -342,6 +342,22 @@ DeliverPubRel ==
 OtherWrite ==
   /\ Ev.op = "srv.write" /\ Ev.kind \in {"SUBACK", "UNSUBACK", "PINGRESP"} /\ Registered(Ev.c)
   /\ (Ev.kind = "PINGRESP" => ~conn[Ev.c].displaced)                        \* C12: a displaced session is not served at its next ping
+
+\* C18: a connection that has sent bytes of the harness' choosing ("RAW") is an offender.  What the broker writes
+\* to it, and messages it may have managed to publish, are not constrained - only that nobody else is affected:
+\* such payloads may reach the log and the offender itself, never another session.
+HostileWrite ==
+  /\ Ev.op = "srv.write" /\ Ev.c \in Dom(conn) /\ conn[Ev.c].hostile /\ Ev.kind # "CONNACK"
+  /\ outf' = IF Ev.kind = "PUBLISH" /\ <<Ev.c, Ev.id>> \in Dom(outf)
+             THEN Upd(outf, <<Ev.c, Ev.id>>, [outf[<<Ev.c, Ev.id>>] EXCEPT !.p = Ev.p, !.due = FALSE])
+             ELSE IF Ev.kind = "PUBREL" /\ <<Ev.c, Ev.id>> \in Dom(outf)
+             THEN Upd(outf, <<Ev.c, Ev.id>>, [outf[<<Ev.c, Ev.id>>] EXCEPT !.due = FALSE]) ELSE outf
+  /\ UNCHANGED <<vnow, conn, subs, msgs, logs, acked, inq2, deliv, need, owed, ret, tags, sweeps, dead, table, clears, faults, reach>>
+HostileAppend ==
+  /\ Ev.op = "log.append" /\ Ev.n \in Dom(logs) /\ Ev.p # "" /\ Ev.p \notin Dom(msgs)
+  /\ \E c \in Dom(conn) : conn[c].hostile
+  /\ logs' = IF Ev.ok THEN Upd(logs, Ev.n, Append(logs[Ev.n], Ev.p)) ELSE logs
+  /\ UNCHANGED <<vnow, conn, subs, msgs, acked, inq2, outf, deliv, need, owed, ret, tags, sweeps, dead, table, clears, faults, reach>>
 
 \* ------------------------------------------------------------------ teardown
 WillOf(c) == conn[c].will
@@ -451,7 +467,7 @@ Step ==
   /\ \/ New \/ Open \/ SendConnect \/ AuthDone \/ Register \/ ConnAck \/ Tick \/ Timeout \/ ClientClose
      \/ SendPublish \/ SendSubscribe \/ SendUnsubscribe \/ SendOther \/ SendStray
      \/ LogAppend \/ AckInbound \/ PubRecInbound \/ InsertSeam \/ Callback \/ SweepCall \/ SweepRet
-     \/ DeliverPublish \/ DeliverEmpty \/ DeliverPubRel
+     \/ DeliverPublish \/ DeliverEmpty \/ DeliverPubRel \/ HostileWrite \/ HostileAppend
      \/ (OtherWrite /\ UNCHANGED <<conn, vnow, subs, msgs, logs, acked, inq2, outf, deliv, need, owed, ret, tags, sweeps, dead, table, clears, faults, reach>>)
      \/ Unregister \/ TeardownDone \/ Close \/ PeerFail \/ Inject
      \/ (Probe /\ UNCHANGED <<conn, vnow, subs, msgs, logs, acked, inq2, outf, deliv, need, owed, ret, tags, sweeps, dead, table, clears, faults, reach>>)
